@@ -886,7 +886,7 @@ def _check_back_arrow(G: ADMG, X, Y: set):
         if not (
             G.has_edge(X, elem, G.bidirected_edge_name) or G.has_edge(elem, X, G.directed_edge_name)
         ):
-            out.update(elem)
+            out.add(elem)
 
     return out
 
@@ -959,7 +959,8 @@ def _recursively_find_pd_paths(G, X, paths, Y):
         nbr_possible = _check_back_arrow(G, cur_elem, nbr_temp)
 
         if len(nbr_possible) == 0:
-            new_paths = new_paths + (elem,)
+            # dead end that is not in Y: no path to Y continues from here
+            continue
 
         possible_end = nbr_possible.intersection(Y)
 
@@ -1029,18 +1030,11 @@ def proper_possibly_directed_path(G, X: Optional[Set], Y: Optional[Set]):
 
     """
 
-    if isinstance(X, set):
-        x_neighbors = _get_neighbors_of_set(G, X)
-    else:
-        nbr_temp = G.neighbors(X)
-        nbr_possible = _check_back_arrow(nbr_temp)
-        x_neighbors = []
-
-        for elem in nbr_possible:
-            temp = dict()
-            temp[0] = X
-            temp[1] = elem
-            x_neighbors.append(temp)
+    if not isinstance(X, (set, frozenset)):
+        # a single source node
+        X = {X}
+    X = set(X)
+    x_neighbors = _get_neighbors_of_set(G, X)
 
     path_list = _recursively_find_pd_paths(G, X, x_neighbors, Y)
 
